@@ -124,15 +124,22 @@ Ltac model_cbn :=
 Ltac compute_resolve :=
   match goal with
   | |- context [claim _ ?R _ _] =>
-      let r := eval vm_compute in R in change R with r
+      let r := eval vm_compute in R in
+      let E := fresh "Eres" in
+      assert (E : R = r) by (vm_compute; reflexivity);
+      rewrite E; clear E
   end.
 
 Ltac run_cbn :=
   unfold run;
-  match goal with |- context [compile ?e] => let c := eval vm_compute in (compile e) in change (compile e) with c end;
+  match goal with |- context [compile ?e] =>
+    let c := eval vm_compute in (compile e) in
+    let E := fresh "Ecomp" in
+    assert (E : compile e = c) by (vm_compute; reflexivity);
+    rewrite E; clear E end;
   cbv beta iota;
   cbn [csem nth_error sem_i2 sem_icmp sem_i1 sem_idm sem_f2 sem_f1 sem_fcmp sem_l2 option_map fst snd];
-  change (wrap_u 0) with 0 in *; change (wrap_u 1) with 1 in *.
+  replace (wrap_u 0) with 0 in * by (vm_compute; reflexivity); replace (wrap_u 1) with 1 in * by (vm_compute; reflexivity).
 
 Ltac destruct_vals :=
   repeat match goal with
@@ -148,7 +155,7 @@ Ltac pow_guard :=
   | |- context [ilt_s ?w 0] =>
       let E := fresh "E" in
       assert (E : ilt_s w 0 = false) by
-        (unfold ilt_s; change (to_s 0) with 0; unfold to_s, word, srange, M64, H64 in *;
+        (unfold ilt_s; replace (to_s 0) with 0 by (vm_compute; reflexivity); unfold to_s, word, srange, M64, H64 in *;
          repeat match goal with |- context [?w <? 9223372036854775808] => destruct (w <? 9223372036854775808) eqn:? end; lia);
       rewrite E; cbv beta iota
   end.
@@ -193,32 +200,21 @@ Ltac all_entries unf :=
   cbn [list_prod map app];
   repeat (apply Forall_cons; [ cbn [fst snd]; unf; timeout 60 entry' | ]); apply Forall_nil.
 
-Section Tables.
-Variable fm : FloatModel.
 
-Definition bin_entries : list (pybin * (gty * gty)) := list_prod all_pybin (list_prod all_gty all_gty).
-Definition un_entries : list (pyun * gty) := list_prod all_pyun all_gty.
 Definition ty_pairs : list (gty * gty) := list_prod all_gty all_gty.
+Definition bin_entries : list (pybin * (gty * gty)) := list_prod all_pybin ty_pairs.
+Definition un_entries : list (pyun * gty) := list_prod all_pyun all_gty.
 
-Lemma all_bin_ok : Forall (fun c => bin_ok fm (fst c) (fst (snd c)) (snd (snd c))) bin_entries.
-Proof. unfold bin_entries, all_pybin, all_gty. all_entries ltac:(unfold bin_ok). Qed.
+(* one operator against the 16 operand type pairs *)
+Definition bin_row (fm : FloatModel) (op : pybin) : Prop :=
+  Forall (fun p => bin_ok fm op (fst p) (snd p)) ty_pairs.
 
-Lemma all_un_ok : Forall (fun c => un_ok fm (fst c) (snd c)) un_entries.
-Proof. unfold un_entries, all_pyun, all_gty. all_entries ltac:(unfold un_ok). Qed.
+Ltac row := intro fm; unfold bin_row, ty_pairs, all_gty; all_entries ltac:(unfold bin_ok).
 
-Lemma all_not_ok : Forall (not_ok fm) all_gty.
-Proof. unfold all_gty. all_entries ltac:(unfold not_ok). Qed.
-
-Lemma all_conv_ok : Forall (fun c => conv_ok fm (fst c) (snd c)) ty_pairs.
-Proof. unfold ty_pairs, all_gty. all_entries ltac:(unfold conv_ok). Qed.
-
-Lemma all_abs_ok : Forall (abs_ok fm) all_gty.
-Proof. unfold all_gty. all_entries ltac:(unfold abs_ok). Qed.
-
-Lemma all_pow_ok : Forall (fun c => pow_ok fm (fst c) (snd c)) ty_pairs.
-Proof. unfold ty_pairs, all_gty. all_entries ltac:(unfold pow_ok). Qed.
-
-Lemma all_divmod_ok : Forall (fun c => divmod_ok fm (fst c) (snd c)) ty_pairs.
-Proof. unfold ty_pairs, all_gty. all_entries ltac:(unfold divmod_ok). Qed.
-
-End Tables.
+Lemma Forall_prod {A B} (P : A -> B -> Prop) (l1 : list A) (l2 : list B) :
+  Forall (fun a => Forall (fun b => P a b) l2) l1 ->
+  Forall (fun c => P (fst c) (snd c)) (list_prod l1 l2).
+Proof.
+  intros H. apply Forall_forall. intros [a b] Hin. apply in_prod_iff in Hin. destruct Hin as [Ha Hb].
+  rewrite Forall_forall in H. specialize (H a Ha). rewrite Forall_forall in H. exact (H b Hb).
+Qed.
